@@ -236,7 +236,11 @@ thread_local! {
 
 fn spawn_server() -> Result<YensServer, String> {
     use std::process::{Command, Stdio};
-    let exe = std::env::current_exe().map_err(|e| e.to_string())?;
+    // the fuzz target is not `rcv`: it names the helper binary through RCV_HELPER_EXE
+    let exe = match std::env::var_os("RCV_HELPER_EXE") {
+        Some(p) => std::path::PathBuf::from(p),
+        None => std::env::current_exe().map_err(|e| e.to_string())?,
+    };
     let mut child = Command::new(exe)
         .arg("--yens-server")
         .stdin(Stdio::piped())
